@@ -9,6 +9,7 @@ comparison is between two artefacts computed from the source.  The catalogue is 
 for these shapes only (every shape of top-level sequences up to three segments with at most one branch token, whose
 sub-expressions have up to two segments), which is where a flaw of the fold's case structure shows."""
 import itertools
+import re
 
 from ..teval import (Adt, Ref, Place, Cell, Sym, Top, Panicked, strip, Interp, StrB, ok, err, UNIT)
 from ..facts import AnchorMissing
@@ -52,8 +53,9 @@ class Gen:
             text += "/"
         for i, seg in enumerate(segments):
             if seg == "TREE":
-                toks.append(T.leaf("tree", self.fresh()))
-                text += ("" if text == "" or text.endswith("/") else "/") + "**" + ("/" if i + 1 < len(segments) or trail else "")
+                rooted = lead and i == 0
+                toks.append(T.leaf("tree-rooted" if rooted else "tree", self.fresh()))
+                text += ("/" if rooted else "") + ("" if text == "" or text.endswith("/") else "/") + "**" + ("/" if i + 1 < len(segments) or trail else "")
                 continue
             if i > 0 and segments[i - 1] != "TREE":
                 toks.append(T.leaf("sep", self.fresh()))
@@ -87,8 +89,175 @@ def sub_expressions(max_segments, with_one=True):
     return out
 
 
-def catalogue(tier):
-    """-> list of (text, builder) where builder() gives the top-level token list."""
+def literal_catalogue(tier):
+    """Expressions made of literals, separators, alternations and exactly bounded repetitions of literals: the shapes
+    for which invariant text is plausible (C11)."""
+    out = []
+    bodies = [[["a"]], [["a"], ["a"]], [["a", "a"]]]
+
+    def branch_variants():
+        yield None
+        for b1 in bodies:
+            yield ("alt", [b1])
+            for b2 in bodies:
+                yield ("alt", [b1, b2])
+                yield ("alt-same", [b1, b2])
+            for bounds in ((1, 1), (2, 2), (0, 1), (1, 2), (1, None)):
+                yield ("rep", [b1], bounds)
+
+    def make(before, bv, after, glue_before, glue_after, lead):
+        def build():
+            g = Gen()
+            segs = [list(x) for x in before]
+            if bv is not None:
+                kind = bv[0]
+                texts, toks_list = [], []
+                for j, body in enumerate(bv[1]):
+                    if kind == "alt-same" and j == 1:
+                        # the same text as the first branch, spelled again
+                        g2 = Gen()
+                        toks, text = g2.tokens([list(x) for x in bv[1][0]])
+                    else:
+                        toks, text = g.tokens([list(x) for x in body])
+                    toks_list.append(toks)
+                    texts.append(text)
+                if kind.startswith("alt"):
+                    tok = T.branch("alt", [T.branch("cat", b, g.fresh()) for b in toks_list], g.fresh())
+                    btext = "{%s}" % ",".join(texts)
+                else:
+                    lo, hi = bv[2]
+                    b = toks_list[0]
+                    tok = T.branch("rep", [T.branch("cat", b, g.fresh())], g.fresh(), lower=lo, upper=hi)
+                    btext = "<%s:%s,%s>" % (texts[0], lo, "" if hi is None else hi)
+                mid = [(tok, btext)]
+                if glue_before and segs:
+                    segs[-1] = segs[-1] + mid
+                else:
+                    segs.append(mid)
+            rest = [list(x) for x in after]
+            if bv is not None and glue_after and rest:
+                segs[-1] = segs[-1] + rest[0]
+                rest = rest[1:]
+            segs += rest
+            return g.tokens(segs, lead=lead)
+        return build
+    ctx = [(), (["a"],)] + ([(["a"], ["a"])] if tier == "thorough" else [])
+    for bv in branch_variants():
+        for before, after in itertools.product(ctx, repeat=2):
+            if bv is None and not before and not after:
+                continue
+            for gb, ga, lead in itertools.product((False, True), repeat=3):
+                if (gb and not before) or (ga and not after) or (bv is None and (gb or ga)):
+                    continue
+                out.append(make(before, bv, after, gb, ga, lead))
+    return out
+
+
+def pair_catalogue(tier):
+    """Two branch tokens in one sequence (joined by a separator, glued, or around a tree wildcard): terms of two
+    alternations / repetitions meet, which is where an order-sensitive combination shows."""
+    thorough = False     # the same shapes in both tiers (the thorough tier deepens the general catalogue)
+    subs = [([["a"]], False, False), ([["a"], ["a"]], False, False), ([["a"]], False, True), ([["a"]], True, False), ([["*"]], False, False)]
+    if thorough:
+        subs += [([["*"]], False, True), (["TREE"], False, False), ([["a"], "TREE"], False, False)]
+    shapes = [("alt", [s1, s2], None) for s1, s2 in itertools.product(subs, repeat=2)]
+    shapes += [("rep", [s], b) for s in subs for b in (((1, 2), (2, 2), (1, None)) if thorough else ((1, 2),))]
+    out = []
+
+    def make(sh1, sh2, joiner, tail):
+        def build():
+            g = Gen()
+
+            def branch(shape):
+                kind, subs_, bounds = shape
+                bodies, texts = [], []
+                for (segs, lead, trail) in subs_:
+                    toks, text = g.tokens([list(x) if x != "TREE" else "TREE" for x in segs], lead, trail)
+                    bodies.append(toks)
+                    texts.append(text)
+                if kind == "alt":
+                    return (T.branch("alt", [T.branch("cat", b, g.fresh()) for b in bodies], g.fresh()), "{%s}" % ",".join(texts))
+                lo, hi = bounds
+                b = bodies[0]
+                return (T.branch("rep", [T.branch("cat", b, g.fresh())], g.fresh(), lower=lo, upper=hi),
+                        "<%s:%s,%s>" % (texts[0], lo, "" if hi is None else hi))
+            b1, b2 = branch(sh1), branch(sh2)
+            if joiner == "glue":
+                segs = [[b1, b2]]
+            elif joiner == "sep":
+                segs = [[b1], [b2]]
+            else:
+                segs = [[b1], "TREE", [b2]]
+            if tail == "sep-lit":
+                segs.append(["a"])
+            elif tail == "glue-lit":
+                segs[-1] = segs[-1] + ["a"]
+            return g.tokens(segs)
+        return build
+    for sh1, sh2 in itertools.product(shapes, repeat=2):
+        for joiner in (("sep", "glue", "tree") if thorough else ("sep", "glue")):
+            for tail in ((None, "sep-lit", "glue-lit") if thorough else (None,)):
+                out.append(make(sh1, sh2, joiner, tail))
+    return out
+
+
+def nested_catalogue(tier):
+    """A branch inside a repetition: `<<*/:2,2>:1,>*`, `<a{*/,*/*/}:1,>*`."""
+    thorough = False     # the same shapes in both tiers
+    bodies = [([["*"]], False, True), ([["a"]], False, True), ([["*"]], False, False), ([["*"], ["*"]], False, True)]
+    if thorough:
+        bodies += [([["a"], "TREE"], False, False), (["TREE"], True, False), ([["a"]], True, False)]
+    inner_shapes = [("rep", [b], bounds) for b in bodies for bounds in ((2, 2), (1, 2), (1, None))]
+    inner_shapes += [("alt", [b1, b2], None) for b1, b2 in itertools.product(bodies, repeat=2)]
+    outer_bounds = ((1, None), (0, None), (2, 2)) + (((1, 2),) if thorough else ())
+    out = []
+
+    def make(inner, inner_pre, inner_post, outer, before, tail):
+        def build():
+            g = Gen()
+            kind, subs_, bounds = inner
+            bodies_, texts = [], []
+            for (segs, lead, trail) in subs_:
+                toks, text = g.tokens([list(x) if x != "TREE" else "TREE" for x in segs], lead, trail)
+                bodies_.append(toks)
+                texts.append(text)
+            if kind == "alt":
+                itok = (T.branch("alt", [T.branch("cat", b, g.fresh()) for b in bodies_], g.fresh()), "{%s}" % ",".join(texts))
+            else:
+                lo, hi = bounds
+                itok = (T.branch("rep", [T.branch("cat", bodies_[0], g.fresh())], g.fresh(), lower=lo, upper=hi), "<%s:%s,%s>" % (texts[0], lo, "" if hi is None else hi))
+            seg = ([inner_pre] if inner_pre else []) + [itok] + ([inner_post] if inner_post else [])
+            body_toks, body_text = g.tokens([seg])
+            if outer is None:
+                otok = (T.branch("alt", [T.branch("cat", body_toks, g.fresh()), T.branch("cat", [lit("z")], g.fresh())], g.fresh()), "{%s,z}" % body_text)
+            else:
+                lo, hi = outer
+                otok = (T.branch("rep", [T.branch("cat", body_toks, g.fresh())], g.fresh(), lower=lo, upper=hi), "<%s:%s,%s>" % (body_text, lo, "" if hi is None else hi))
+            segs = ([list(before)] if before else [])
+            segs.append([otok] + ([tail] if tail else []))
+            return g.tokens(segs)
+        return build
+    outers = list(outer_bounds) + ([None] if thorough else [])
+    for inner in inner_shapes:
+        for outer in outers:
+            for inner_pre, inner_post in ((None, None), ("a", None), (None, "*")) if thorough else ((None, None), ("a", None)):
+                for before in ((), ("a",)):
+                    for tail in (None, "*"):
+                        out.append(make(inner, inner_pre, inner_post, outer, before, tail))
+    return out
+
+
+def catalogue(tier, flavour="general"):
+    """-> list of builders; builder() gives (top-level token list, expression text)."""
+    if flavour == "literal":
+        return literal_catalogue(tier)
+    if flavour == "nested":
+        return nested_catalogue(tier)
+    if flavour == "pairs":
+        return pair_catalogue(tier)
+    if flavour == "rooted":
+        base = catalogue("quick", "general")
+        return base + [(lambda b=b: _rooted(b)) for b in base]
     thorough = tier == "thorough"
     subs2 = sub_expressions(2, thorough)
     subs1 = sub_expressions(1, thorough)
@@ -110,6 +279,8 @@ def catalogue(tier):
             if any(c[i] == "TREE" and c[i + 1] == "TREE" for i in range(n - 1)):
                 continue
             contexts.append(c)
+    if not thorough:
+        contexts += [("TREE", ["a"]), ("TREE", ["*"])]      # a tree wildcard two segments before the branch
     out = []
 
     def make(before, shape, after, glue_before, glue_after):
@@ -122,12 +293,12 @@ def catalogue(tier):
                 bodies.append(toks)
                 texts.append(text)
             if kind == "alt":
-                tok = T.branch("alt", [T.branch("cat", b, g.fresh()) if len(b) != 1 else b[0] for b in bodies], g.fresh())
+                tok = T.branch("alt", [T.branch("cat", b, g.fresh()) for b in bodies], g.fresh())
                 btext = "{%s}" % ",".join(texts)
             else:
                 lo, hi = bounds
                 body = bodies[0]
-                tok = T.branch("rep", [T.branch("cat", body, g.fresh()) if len(body) != 1 else body[0]], g.fresh(), lower=lo, upper=hi)
+                tok = T.branch("rep", [T.branch("cat", body, g.fresh())], g.fresh(), lower=lo, upper=hi)
                 btext = "<%s:%s,%s>" % (texts[0], lo, "" if hi is None else hi)
             segs = [list(s) if s != "TREE" else "TREE" for s in before]
             # the branch token is glued to the neighbouring segment (same component) or is a segment of its own
@@ -162,6 +333,53 @@ def catalogue(tier):
     return out
 
 
+def zero_spans(tok):
+    """Replaces every annotation of the tree by the span (0, 0) (the language rules do not depend on spans)."""
+    from ..teval import Tup
+    t = strip(tok)
+    if not isinstance(t, Adt):
+        return
+    if t.path == T.TOKEN:
+        t.fields["annotation"] = Tup([0, 0])
+    for v in list(t.fields.values()):
+        v = strip(v)
+        if isinstance(v, Adt):
+            zero_spans(v)
+        elif hasattr(v, "items"):
+            for x in v.items:
+                zero_spans(x)
+
+
+def same_tree(a, b):
+    """Structural equality of two token trees (annotations ignored)."""
+    a, b = strip(a), strip(b)
+    if isinstance(a, Adt) and isinstance(b, Adt):
+        if a.path != b.path or a.variant != b.variant:
+            return False
+        for k in set(a.fields) | set(b.fields):
+            if k == "annotation":
+                continue
+            if k not in a.fields or k not in b.fields or not same_tree(a.fields[k], b.fields[k]):
+                return False
+        return True
+    if hasattr(a, "items") and hasattr(b, "items"):
+        return len(a.items) == len(b.items) and all(same_tree(x, y) for x, y in zip(a.items, b.items))
+    if isinstance(a, StrB):
+        a = a.concrete()
+    if isinstance(b, StrB):
+        b = b.concrete()
+    return type(a) == type(b) and a == b
+
+
+def _rooted(builder):
+    """The same expression behind a leading separator (a rooted tree wildcard if it begins with `**`)."""
+    toks, text = builder()
+    first = toks[0]
+    if getattr(first, "tag", "").startswith("tree:"):
+        return [T.leaf("tree-rooted", "rt")] + toks[1:], "/" + text
+    return [T.leaf("sep", "rs")] + toks, "/" + text
+
+
 class Judge:
     def __init__(self, F):
         self.F = F
@@ -173,9 +391,85 @@ class Judge:
             raise AnchorMissing("a monomorphic instance of encode::compile")
         self.comp_inst = insts[0]
         self.rules = [F.find("rule::boundary"), F.find("rule::branch"), F.find("rule::bounds")]
+        self.var = F.find("token::Token::variance")
+        self.var_inst = {}
+        for i in F.instances_of(self.var):
+            a = F.instances[i].get("args") or []
+            if len(a) == 2 and a[0] == "()":
+                self.var_inst[a[1].split("::")[-1].split("<")[0]] = i
+        self.root = F.find("token::Token::has_root")
+        self.root_inst = (F.instances_of(self.root) or [False])[0]
+
+    def _single(self, item, inst, tree):
+        I = Interp(self.F)
+        cases = I.explore(lambda: I.call_item(item, [Ref(Place(Cell(tree)))], inst=inst))
+        if len(cases) != 1 or isinstance(cases[0].result, (Top, Panicked)):
+            return None
+        return cases[0].result
+
+    def depth(self, tree):
+        """(lower, upper | None) of the reported depth variance | None"""
+        from . import c10
+        if "Depth" not in self.var_inst:
+            raise AnchorMissing("the instance Token::variance::<Depth>")
+        r = self._single(self.var, self.var_inst["Depth"], tree)
+        return None if r is None else c10.decode(r)
+
+    def text(self, tree):
+        """("invariant", text) | ("variant",) | None"""
+        if "Text" not in self.var_inst:
+            raise AnchorMissing("the instance Token::variance::<Text>")
+        r = strip(self._single(self.var, self.var_inst["Text"], tree))
+        if not isinstance(r, Adt) or r.variant not in ("Invariant", "Variant"):
+            return None
+        if r.variant == "Variant":
+            return ("variant",)
+        t = strip(r.fields.get("0"))
+        frs = strip(t.fields.get("fragments")) if isinstance(t, Adt) else None
+        if frs is None or not hasattr(frs, "items"):
+            return None
+        out = ""
+        for fr in frs.items:
+            fr = strip(fr)
+            x = strip(fr.fields.get("0")) if isinstance(fr, Adt) else None
+            if isinstance(x, StrB):
+                x = x.concrete()
+            if not isinstance(x, str):
+                return None
+            out += x
+        return ("invariant", out)
+
+    def partition(self, tree):
+        """Tokenized::partition on the tree (all spans zero) -> (prefix text, postfix tree | None) | None"""
+        it = self.F.find("token::Tokenized::partition")
+        inst = (self.F.instances_of(it) or [False])[0]
+        zero_spans(tree)
+        tz = Adt("token::Tokenized", "Tokenized", {"expression": "", "token": tree})
+        I = Interp(self.F)
+        cases = I.explore(lambda: I.call_item(it, [tz], inst=inst))
+        if len(cases) != 1 or isinstance(cases[0].result, (Top, Panicked)):
+            return None
+        r = strip(cases[0].result)
+        if not (hasattr(r, "items") and len(r.items) == 2):
+            return None
+        prefix, rest = strip(r.items[0]), strip(r.items[1])
+        if isinstance(prefix, StrB):
+            prefix = prefix.concrete()
+        if not isinstance(prefix, str) or not isinstance(rest, Adt) or rest.variant not in ("Some", "None"):
+            return None
+        if rest.variant == "None":
+            return prefix, None
+        tzn = strip(rest.fields["0"])
+        return prefix, strip(tzn.fields["token"])
+
+    def has_root(self, tree):
+        r = strip(self._single(self.root, self.root_inst, tree))
+        return r.variant if isinstance(r, Adt) and r.path.endswith("When") else None
 
     def tree(self, toks):
-        return toks[0] if len(toks) == 1 else T.branch("cat", toks, "top")
+        tree = T.branch("cat", toks, "top")      # as the parser builds it: every (sub-)expression is a concatenation
+        zero_spans(tree)      # spans play no part in these rules; unknown spans would only fork the error paths
+        return tree
 
     def accepted(self, tree):
         """The rule checker's verdict on the tree (the size rule is about magnitudes and is skipped)."""
@@ -218,14 +512,23 @@ class Judge:
 _STATE = {}
 
 
+def _accepted(J, text, tree):
+    m = _STATE.get("accepted")
+    if m is not None and text in m:
+        return m[text]
+    return J.accepted(tree)
+
+
 def judge_one(J, text, toks):
     tree = J.tree(toks)
+    if _STATE.get("accepted") is not None and _STATE["accepted"].get(text) is False:
+        return {"text": text, "status": "rejected"}
     v = J.verdict(tree)
     if v is None:
         return {"text": text, "status": "unanalysable", "what": "Token::is_exhaustive"}
     if v != "Always":
         return {"text": text, "status": "other", "verdict": v}
-    acc = J.accepted(tree)
+    acc = _accepted(J, text, tree)
     if acc is False:
         return {"text": text, "status": "rejected"}
     if acc is None:
@@ -241,19 +544,161 @@ def judge_one(J, text, toks):
             "matches_empty": w is not None and w[0] == ""}
 
 
+LOOSE_ROOTED_TREE = "[/].*[/]?"
+STRICT_ROOTED_TREE = "(?:[/]|[/].*[/])"
+
+
+def judge_partition(J, text, toks):
+    """C08: the partition (prefix, postfix) of the tree against the language of the original."""
+    tree = J.tree(toks)
+    acc = _accepted(J, text, tree)
+    if acc is False:
+        return {"text": text, "status": "rejected"}
+    if acc is None:
+        return {"text": text, "status": "unanalysable", "what": "the rule checker's verdict"}
+    pat0 = J.pattern(tree)
+    from ..models import deep_copy
+    part = J.partition(deep_copy(tree))
+    if pat0 is None or part is None:
+        return {"text": text, "status": "unanalysable", "what": "encode::compile" if pat0 is None else "Tokenized::partition"}
+    prefix, post = part
+    problems = []
+    kinds = []
+    out = {"text": text, "prefix": prefix, "pattern": pat0}
+    try:
+        if post is None:
+            alpha = rxc.alphabet_of(pat0, "(?s)^" + rxc.escape(prefix) + "$")
+            d0 = rxc.dfa(pat0, alpha)
+            w = rxc.canonical_difference(d0, rxc.dfa("(?s)^" + rxc.escape(prefix) + "$", alpha))
+            if w is not None:
+                problems.append("there is no postfix, but the glob %s `%s` while the prefix is `%s`" % ("matches" if w[1] else "does not match", w[0], prefix))
+        else:
+            patp = J.pattern(post)
+            if patp is None:
+                return {"text": text, "status": "unanalysable", "what": "encode::compile of the postfix"}
+            out["postfix_pattern"] = patp
+            flags, body = rxc.body_of(patp)
+            if prefix == "":
+                rhs = patp
+                skip = ()
+            else:
+                rhs = flags + "^" + "(?-i)" + rxc.escape(prefix) + ("" if prefix.endswith("/") else "/") + "(?:" + body + ")$"
+                skip = (prefix,)      # remainder empty: `a/*` does not match `a` although `*` matches the empty path (not compared)
+            alpha = rxc.alphabet_of(pat0, rhs)
+            w = rxc.canonical_difference(rxc.dfa(pat0, alpha), rxc.dfa(rhs, alpha), skip)
+            if w is not None and LOOSE_ROOTED_TREE in pat0:
+                # the known loose encoding of a rooted tree wildcard in first position (C01.tree, recorded there): is the
+                # difference explained by it alone?
+                strict = pat0.replace(LOOSE_ROOTED_TREE, STRICT_ROOTED_TREE, 1)
+                alpha2 = rxc.alphabet_of(strict, rhs)
+                if rxc.canonical_difference(rxc.dfa(strict, alpha2), rxc.dfa(rhs, alpha2), skip) is None:
+                    out["explained_by"] = "rooted-first-tree-encoding"
+                    out["example"] = w[0]
+                    w = None
+            if w is not None:
+                kinds.append("law")
+                problems.append("the glob %s `%s`, but prefix `%s` + postfix (program %s) %s" % (
+                    "matches" if w[1] else "does not match", w[0], prefix, patp, "does" if w[2] else "does not"))
+            hr = J.has_root(post)
+            if hr != "Never":
+                kinds.append("postfix-rooted")
+                problems.append("the postfix reports has_root = %s" % hr)
+            again = J.partition(deep_copy(post))
+            if again is None:
+                return {"text": text, "status": "unanalysable", "what": "Tokenized::partition of the postfix"}
+            if again[0] != "" or again[1] is None or not same_tree(again[1], post):
+                kinds.append("not-idempotent")
+                problems.append("partitioning the postfix again gives the prefix `%s` and %s postfix" % (again[0], "the same" if again[1] is not None and same_tree(again[1], post) else "another"))
+    except rx.RxError as e:
+        return {"text": text, "status": "unanalysable", "what": "a program text: %s" % e}
+    if not problems and out.get("explained_by"):
+        out["status"] = "explained"
+        out["verdict"] = "prefix `%s`" % prefix
+        return out
+    out["status"] = "unsound" if problems else ("sound" if (prefix != "" or post is None) else "other")
+    if problems:
+        out["why"] = "; ".join(problems)
+        first = strip(toks[0])
+        topo = strip(first.fields["topology"]) if isinstance(first, Adt) else None
+        if topo is not None and topo.variant == "Branch" and J.has_root(tree) == "Always":
+            # the family the property itself names: the root comes from inside a branch, which cannot be unrooted
+            out["group"] = "rooted-through-a-branch/" + "+".join(kinds)
+    out["verdict"] = "prefix `%s`%s" % (prefix, "" if post is not None else ", no postfix")
+    return out
+
+
+def judge_query(J, query, text, toks):
+    if query == "accepted":
+        return {"text": text, "status": "accepted", "accepted": J.accepted(J.tree(toks))}
+    if query == "partition":
+        return judge_partition(J, text, toks)
+    """query: depth | text | root -> dict(text, status, ...) comparing the reported verdict with the language of the
+    program emitted for the same tree"""
+    tree = J.tree(toks)
+    if _STATE.get("accepted") is not None and _STATE["accepted"].get(text) is False:
+        return {"text": text, "status": "rejected"}
+    if query == "depth":
+        v = J.depth(tree)
+        trivial = v == (0, None)
+    elif query == "text":
+        v = J.text(tree)
+        trivial = v == ("variant",)
+    else:
+        v = J.has_root(tree)
+        trivial = v == "Never"
+    if v is None:
+        return {"text": text, "status": "unanalysable", "what": "the reported %s" % query}
+    if trivial:
+        return {"text": text, "status": "other", "verdict": v}
+    acc = _accepted(J, text, tree)
+    if acc is False:
+        return {"text": text, "status": "rejected"}
+    if acc is None:
+        return {"text": text, "status": "unanalysable", "what": "the rule checker's verdict"}
+    if query == "root" and v == "Sometimes":
+        return {"text": text, "status": "unsound", "verdict": v, "why": "a buildable glob reports that it `sometimes` has a root"}
+    pat = J.pattern(tree)
+    if pat is None:
+        return {"text": text, "status": "unanalysable", "what": "encode::compile"}
+    try:
+        d = rxc.dfa(pat)
+        if query == "depth":
+            # the paths the property speaks of: canonical, relative for an unrooted pattern and rooted for a rooted one;
+            # the empty path is left out (a wildcard that matches no character gives it zero components)
+            hr = J.has_root(tree)
+            rng = rxc.component_range(d, rooted={"Never": False, "Always": True}.get(hr), nonempty=True)
+            if rng is None:
+                return {"text": text, "status": "sound", "verdict": v, "pattern": pat, "note": "matches no canonical path"}
+            lo, hi, wlo, _ = rng
+            ok_ = lo >= v[0] and (v[1] is None or (hi is not None and hi <= v[1]))
+            return {"text": text, "status": "sound" if ok_ else "unsound", "verdict": v, "pattern": pat, "actual": [lo, hi], "example": wlo,
+                    "why": None if ok_ else "canonical paths it matches have %s..%s components (e.g. `%s`)" % (lo, "unbounded" if hi is None else hi, wlo)}
+        if query == "text":
+            lit = "".join("\\" + c if c in "\\.+*?()|[]{}^$#&-~" else c for c in v[1])
+            eq, only_pat, only_text = rxc.difference_witness(pat, "(?s)^" + lit + "$")
+            return {"text": text, "status": "sound" if eq else "unsound", "verdict": list(v), "pattern": pat,
+                    "why": None if eq else ("it also matches `%s`" % only_pat if only_pat is not None else "it does not match that text")}
+        w = rxc.all_start_with_separator(d)
+        return {"text": text, "status": "sound" if w is None else "unsound", "verdict": v, "pattern": pat,
+                "why": None if w is None else "it matches `%s`, which does not begin with a separator" % w}
+    except rx.RxError as e:
+        return {"text": text, "status": "unanalysable", "what": "the program text %r: %s" % (pat, e)}
+
+
 def _work(ix):
     J, entries = _STATE["J"], _STATE["entries"]
+    query = _STATE.get("query", "exhaustive")
     out = []
     for i in ix:
         text, toks = entries[i]
         try:
-            out.append(judge_one(J, text, toks))
+            out.append(judge_one(J, text, toks) if query == "exhaustive" else judge_query(J, query, text, toks))
         except Exception as e:  # evaluator error: fail closed for this entry
             out.append({"text": text, "status": "unanalysable", "what": "internal error %s: %s" % (type(e).__name__, e)})
     return out
 
 
-def judge_all(F, tier, jobs=None):
+def judge_all(F, tier, jobs=None, query="exhaustive"):
     """-> list of dict(text, status, verdict, witness): status sound | unsound (verdict `always` but a descendant of a
     matched path is not matched) | other (verdict not `always`) | rejected (not buildable) | unanalysable"""
     import multiprocessing
@@ -261,13 +706,18 @@ def judge_all(F, tier, jobs=None):
     import sys
     import threading
     entries, seen = [], set()
-    for build in catalogue(tier):
+    flavours = {"text": ("general", "literal"), "root": ("rooted",), "partition": ("general", "rooted", "literal"),
+                "depth": ("general", "pairs", "nested"), "exhaustive": ("general", "pairs", "nested"),
+                "accepted": ("general", "rooted", "literal", "pairs", "nested")}.get(query, ("general",))
+    builders = [b for fl in flavours for b in catalogue(tier, fl)]
+    for build in builders:
         toks, text = build()
         if text not in seen:
             seen.add(text)
             entries.append((text, toks))
     _STATE["J"] = Judge(F)
     _STATE["entries"] = entries
+    _STATE["query"] = query
     jobs = jobs or int(os.environ.get("VERIF_JOBS", "0")) or min(16, os.cpu_count() or 4)
     chunks = [list(range(i, len(entries), jobs * 4)) for i in range(jobs * 4)]
     if jobs <= 1:
@@ -289,7 +739,7 @@ def key_of(text):
     return "".join(ENC.get(c, c) for c in text) or "empty"
 
 
-def cached_judgement(F, tier):
+def cached_judgement(F, tier, query="exhaustive"):
     """One computation per tree state and tier, shared by the checks that need it (C09, C03)."""
     import fcntl
     import hashlib
@@ -302,13 +752,17 @@ def cached_judgement(F, tier):
         with open(os.path.join(build.VERIF, "sa", mod), "rb") as f:
             h.update(f.read())
     os.makedirs(os.path.join(build.CACHE, "exhaust"), exist_ok=True)
-    path = os.path.join(build.CACHE, "exhaust", "%s-%s.json" % (tier, h.hexdigest()[:20]))
-    with open(os.path.join(build.CACHE, "lock-exhaust-" + tier), "w") as lock:
+    path = os.path.join(build.CACHE, "exhaust", "%s-%s-%s.json" % (query, tier, h.hexdigest()[:20]))
+    with open(os.path.join(build.CACHE, "lock-exhaust-%s-%s" % (query, tier)), "w") as lock:
         fcntl.flock(lock, fcntl.LOCK_EX)
         if os.path.exists(path) and os.environ.get("VERIF_NO_CACHE") != "1":
             with open(path) as f:
                 return json.load(f), True
-        res = judge_all(F, tier)
+        if query != "accepted":
+            # the rule checker's verdict on every catalogue expression is computed once and shared by all queries
+            acc, _ = cached_judgement(F, tier, "accepted")
+            _STATE["accepted"] = {r["text"]: r["accepted"] for r in acc}
+        res = judge_all(F, tier, query=query)
         tmp = path + ".new"
         with open(tmp, "w") as f:
             json.dump(res, f)
@@ -316,12 +770,59 @@ def cached_judgement(F, tier):
         # keep the cache small
         d = os.path.join(build.CACHE, "exhaust")
         files = sorted((os.path.join(d, n) for n in os.listdir(d)), key=os.path.getmtime)
-        for old in files[:-8]:
+        for old in files[:-24]:
             try:
                 os.remove(old)
             except OSError:
                 pass
         return res, False
+
+
+# Deviation families that are recorded as known findings are reported as one group each (one key), together with the
+# number of catalogue expressions in the family; the ceilings are the numbers counted on the pinned tree: a family
+# that grows is a new violation (`group-grew:`), so a different defect that only shows inside a known family is not
+# hidden.  (query, group, tier) -> ceiling
+GROUP_CEILINGS = {
+    ("exhaustive", "optional-repetition/matches-the-empty-path", "quick"): 26,
+    ("exhaustive", "optional-repetition/matched-path-not-empty", "quick"): 8,
+    ("exhaustive", "optional-repetition/matches-the-empty-path", "thorough"): 37,
+    ("exhaustive", "optional-repetition/matched-path-not-empty", "thorough"): 23,
+    ("depth", "lower-bound-above-actual/tree-wildcard-inside-a-branch", "quick"): 14,
+    ("depth", "lower-bound-above-actual/tree-wildcard-inside-a-branch", "thorough"): 200,
+    ("partition", "rooted-through-a-branch/law+postfix-rooted+not-idempotent", "quick"): 45,
+    ("partition", "rooted-through-a-branch/law+postfix-rooted+not-idempotent", "thorough"): 632,
+    ("partition", "rooted-through-a-branch/postfix-rooted", "thorough"): 8,
+}
+# the attribution to the known C01 encoding finding has a ceiling too
+EXPLAINED_CEILINGS = {("partition", "rooted-first-tree-encoding", "quick"): 251, ("partition", "rooted-first-tree-encoding", "thorough"): 251}
+
+
+def group_of(query, r):
+    """The known deviation family a result belongs to (by a structural feature of the expression and the kind of
+    deviation), or None: then the expression is reported on its own."""
+    t = r["text"]
+    if query == "exhaustive":
+        if ":0," in t:
+            return "optional-repetition/" + ("matches-the-empty-path" if r["witness"][0] == "" else "matched-path-not-empty")
+        return None
+    if query == "depth":
+        v, actual = r.get("verdict"), r.get("actual")
+        if v and actual and re.search(r"[{<][^}>]*\*\*", t) and actual[0] < v[0] and (v[1] is None or (actual[1] is not None and actual[1] <= v[1])):
+            return "lower-bound-above-actual/tree-wildcard-inside-a-branch"
+        return None
+    return r.get("group")
+
+
+def report_groups(R, rule, query, tier, groups, where, describe):
+    for gname, rs in sorted(groups.items()):
+        R.fail(rule, "group:" + gname, "%d catalogue expression(s), e.g. %s" % (len(rs), "; ".join(describe(r) for r in rs[:2])), where)
+        ceiling = GROUP_CEILINGS.get((query, gname, tier))
+        if ceiling is None or len(rs) > ceiling:
+            R.fail(rule, "group-grew:" + gname, "the family `%s` has %d members, %s: a further defect shows inside a known family (all members: %s)" % (
+                gname, len(rs), "no ceiling is recorded for it" if ceiling is None else "at most %d were counted on the pinned tree" % ceiling,
+                ", ".join("`%s`" % r["text"] for r in rs[:60])), where)
+        else:
+            R.ok(rule, "group-size:" + gname, "%d members (ceiling %d)" % (len(rs), ceiling), where, sample=False)
 
 
 def report(F, R, rule, tier):
@@ -330,6 +831,7 @@ def report(F, R, rule, tier):
     res, cached = cached_judgement(F, tier)
     where = F.find("token::Token::is_exhaustive").where()
     counts = {}
+    groups = {}
     for r in res:
         counts[r["status"]] = counts.get(r["status"], 0) + 1
         if r["status"] in ("other", "rejected"):
@@ -338,14 +840,65 @@ def report(F, R, rule, tier):
         if r["status"] == "sound":
             R.ok(rule, inst, "`%s` is always exhaustive and its program %s matches every path beneath a match" % (r["text"], r["pattern"]), where,
                  sample=(counts["sound"] % 97 == 1))
+        elif r["status"] == "unsound" and group_of("exhaustive", r):
+            groups.setdefault(group_of("exhaustive", r), []).append(r)
         elif r["status"] == "unsound":
             m, ext = r["witness"]
             R.fail(rule, inst, "`%s` reports that it is always exhaustive, but its program %s matches the path `%s` and not `%s` beneath it: "
                    "a negation with this pattern discards the directory `%s` with everything in it" % (r["text"], r["pattern"], m, m + ext, m), where)
         else:
             R.fail(rule, inst, "`%s`: %s is unanalysable" % (r["text"], r.get("what")), where)
+    report_groups(R, rule, "exhaustive", tier, groups, where,
+                  lambda r: "`%s` reports `always` but matches `%s` and not `%s`" % (r["text"], r["witness"][0], r["witness"][0] + r["witness"][1]))
     for k, v in sorted(counts.items()):
         R.count("catalogue[%s]" % k, v)
     R.note("exhaustiveness catalogue (%s tier): %d expressions, %s%s" % (tier, len(res), counts, " (from the cache of this tree state)" if cached else ""))
     R.floor(rule, "catalogue expressions judged", len(res), 5000)
     R.floor(rule, "expressions with the verdict `always` whose language was decided", counts.get("sound", 0) + counts.get("unsound", 0), 300)
+
+
+QUERY_TEXT = {
+    "partition": ("partitions into %s", "token::Tokenized::partition"),
+    "depth": ("reports the depth variance %s", "token::Token::variance"),
+    "text": ("reports the text variance %s", "token::Token::variance"),
+    "root": ("reports has_root = %s", "token::Token::has_root"),
+}
+
+
+def report_query(F, R, rule, tier, query, floor_total=5000, floor_decided=200):
+    """`rule`: on the catalogue, what the query reports agrees with the language of the emitted program."""
+    res, cached = cached_judgement(F, tier, query)
+    where = F.find(QUERY_TEXT[query][1]).where()
+    counts = {}
+    explained = {}
+    groups = {}
+    for r in res:
+        counts[r["status"]] = counts.get(r["status"], 0) + 1
+        if r["status"] in ("other", "rejected"):
+            continue
+        if r["status"] == "explained":
+            explained.setdefault(r["explained_by"], []).append(r)
+            continue
+        inst = key_of(r["text"])
+        said = QUERY_TEXT[query][0] % (r.get("verdict"),)
+        if r["status"] == "sound":
+            R.ok(rule, inst, "`%s` %s; program %s agrees" % (r["text"], said, r.get("pattern")), where, sample=(counts["sound"] % 97 == 1))
+        elif r["status"] == "unsound" and group_of(query, r):
+            groups.setdefault(group_of(query, r), []).append(r)
+        elif r["status"] == "unsound":
+            R.fail(rule, inst, "`%s` %s, but %s (program %s)" % (r["text"], said, r.get("why"), r.get("pattern")), where)
+        else:
+            R.fail(rule, inst, "`%s`: %s is unanalysable" % (r["text"], r.get("what")), where)
+    report_groups(R, rule, query, tier, groups, where, lambda r: "`%s` %s, but %s" % (r["text"], QUERY_TEXT[query][0] % (r.get("verdict"),), r.get("why")))
+    for cause, rs in sorted(explained.items()):
+        ceiling = EXPLAINED_CEILINGS.get((query, cause, tier))
+        if ceiling is None or len(rs) > ceiling:
+            R.fail(rule, "group-grew:explained-by:" + cause, "%d expressions are attributed to `%s`, %s" % (
+                len(rs), cause, "no ceiling is recorded" if ceiling is None else "at most %d were counted on the pinned tree" % ceiling), where)
+        R.fail(rule, "explained-by:" + cause, "%d expression(s) deviate only because of a defect recorded elsewhere (%s), e.g. `%s` (the glob and "
+               "its partition differ on `%s`)" % (len(rs), cause, rs[0]["text"], rs[0].get("example")), where)
+    for k, v in sorted(counts.items()):
+        R.count("catalogue[%s]" % k, v)
+    R.note("%s catalogue (%s tier): %d expressions, %s%s" % (query, tier, len(res), counts, " (from the cache of this tree state)" if cached else ""))
+    R.floor(rule, "catalogue expressions judged", len(res), floor_total)
+    R.floor(rule, "expressions with a non-trivial verdict whose language was decided", counts.get("sound", 0) + counts.get("unsound", 0), floor_decided)
